@@ -20,6 +20,7 @@ class Hooks:
         self.interrupted_calls = 0
         self.stream_seeks = []     # (offset, whence) handed to an INDEFINITE stream
         self.on_render = None      # callable() invoked from inside _render_ (once, then reset)
+        self.finalize_seam = False  # True: _finalize_render_data_ is a fault seam ("finalize")
 
 
 def frame_output(frame, size, char, duration):
@@ -62,6 +63,9 @@ def make(ti_renderable, hooks):
         def _finalize_render_data_(cls, render_data):
             tok = render_data[SimRenderable].token
             hooks.final_count[tok] = hooks.final_count.get(tok, 0) + 1
+            if hooks.finalize_seam and hooks.kernel is not None:
+                # a user-supplied finalizer is caller code: it may fail or be interrupted
+                hooks.kernel.seam("finalize", tok)
             super()._finalize_render_data_(render_data)
 
         def _handle_interrupted_draw_(self, render_data, render_args, output):
